@@ -1,7 +1,7 @@
 /-
 Driver for C10: one operation per line on stdin, one result per line on stdout.
 
-  ws                                         fresh workspace (no sources, no rules, empty out/)
+  ws [reuse=1]                               fresh workspace (no sources, no rules, empty out/)
   src set <name> size=<n> mtime=<n> mode=<n> [link=<target>]
   src del <name> | src mv <a> <b>
   rules <rule> ...                           replaces every BUILD file; a rule is
@@ -67,7 +67,7 @@ def showBuild (w : World) (ts : List Name) (log : List Name) : String :=
 def step (w : World) (line : String) : World × String :=
   let cfg := genCfg
   match words line with
-  | ["ws"] => (World.empty, "ok")
+  | "ws" :: _ => (World.empty, "ok")   -- `ws reuse=1`: the harness keeps one Builder for the whole history
   | "src" :: "set" :: n :: rest =>
     match kvNat rest "size", kvNat rest "mtime", kvNat rest "mode" with
     | some sz, some mt, some md =>
